@@ -275,15 +275,16 @@ theorem explicit_panics_under_lock :
 /-- the shared accesses the traces are known to contain (so that a renamed field cannot silently
     empty the list the previous theorem speaks about). Locals appear under their canonical number
     (`$1` = the connection NetRouteInvExt walks over); the unexported worker of the getdata handler is not
-    named: the access is in ProcessGetData itself or in a function it calls directly (`accessVia`, `callGraph`). -/
+    named, and a handler may keep such an access in a helper: `accessVia f …` = the access is in f itself or in a
+    function f calls directly (`callGraph`). -/
 theorem shared_accesses_tracked :
     NetParse.Locks.accessVia "OneConnection.ProcessGetData" "c.InvStore(…)" "c.Mutex" = true ∧
-    ("OneConnection.ProcessInv", "c.InvStore(…)", "c.Mutex") ∈ Gen.NetFacts.sharedAccesses ∧
-    ("OneConnection.SendInvs", "c.InvStore(…)", "c.Mutex") ∈ Gen.NetFacts.sharedAccesses ∧
-    ("OneConnection.ProcessNewHeader", "c.InvStore(…)", "c.Mutex") ∈ Gen.NetFacts.sharedAccesses ∧
+    NetParse.Locks.accessVia "OneConnection.ProcessInv" "c.InvStore(…)" "c.Mutex" = true ∧
+    NetParse.Locks.accessVia "OneConnection.SendInvs" "c.InvStore(…)" "c.Mutex" = true ∧
+    NetParse.Locks.accessVia "OneConnection.ProcessNewHeader" "c.InvStore(…)" "c.Mutex" = true ∧
     ("NetRouteInvExt", "$1.InvDone.Map", "$1.Mutex") ∈ Gen.NetFacts.sharedAccesses ∧
     ("NetRouteInvExt", "$1.PendingInvs", "$1.Mutex") ∈ Gen.NetFacts.sharedAccesses ∧
-    ("OneConnection.ParseAddr", "peersdb.PeerDB.Put", "peersdb") ∈ Gen.NetFacts.sharedAccesses ∧
+    NetParse.Locks.accessVia "OneConnection.ParseAddr" "peersdb.PeerDB.Put" "peersdb" = true ∧
     64 ≤ Gen.NetFacts.lockTraces.length := by decide +kernel
 
 /-- the call edges the previous theorem speaks about are really in the regenerated facts: SendRawMsg's
